@@ -318,6 +318,7 @@ func zzH11() {
 	rounds := 0
 	maxRounds := zzParam("rounds")
 	held := false
+	lastTaskNil := false
 	err := d.Dial(context.Background(), func(ctx context.Context, dctx *DialContext) error {
 		rounds++
 		// while the task runs: exactly the newest connection is open
@@ -333,9 +334,13 @@ func zzH11() {
 		}
 		held = true
 		if rounds >= maxRounds {
-			return zzErrOf(zzNondetChoice("task.final", 2) * zzEOpaque) // nil or unrecoverable
+			k := zzNondetChoice("task.final", 2) * zzEOpaque // nil or unrecoverable
+			lastTaskNil = k == zzENone
+			return zzErrOf(k)
 		}
-		return zzErrOf(zzNondetChoice("task.outcome", zzNClasses))
+		k := zzNondetChoice("task.outcome", zzNClasses)
+		lastTaskNil = k == zzENone
+		return zzErrOf(k)
 	})
 	_ = held
 	// every connection ever opened was cleaned up exactly once
@@ -359,7 +364,11 @@ func zzH11() {
 		zzAssert(len(zzConns) == st.connsAtRestoreFailure, "no-new-connection-after-failed-cleanup")
 	}
 	if st.restoreFailed == 1 || st.restoreFailed == 2 {
-		// tolerated: Dial carries on as if cleaned up (its result follows the task)
+		// permission denied / vanished interface on restore are tolerated:
+		// Dial carries on as if cleaned up, so its result follows the task
 		zzCover("tolerated-restore-failure")
+		if lastTaskNil {
+			zzAssert(err == nil, "tolerated-restore-failure-is-not-reported")
+		}
 	}
 }
